@@ -303,6 +303,16 @@ def structural_edits(desc):
             new[ri] = [p, cs[1:], mn, mx]
             new.insert(ri, [p, [cs[0]], mn, mx])
             out.append(('split R%d' % ri, {'names': desc['names'], 'rels': [tuple(x) for x in new]}))
+    # change one cardinality (every other legal pair, including '*' = -1 and upper bounds above the child count)
+    for ri, (p, cs, mn, mx) in enumerate(rels):
+        k = len(cs)
+        for a in range(0, k + 2):
+            for b in [-1] + list(range(max(a, 1), k + 3)):
+                if (a, b) == (mn, mx):
+                    continue
+                new = [list(x) for x in rels]
+                new[ri] = [p, cs, a, b]
+                out.append(('cardinality of R%d [%d,%d] -> [%d,%d]' % (ri, mn, mx, a, b), {'names': desc['names'], 'rels': [tuple(x) for x in new]}))
     # merge two relations of one parent
     for ri, rj in itertools.combinations(range(len(rels)), 2):
         if rels[ri][0] == rels[rj][0]:
@@ -494,15 +504,15 @@ def conditions(tier, seed):
         ri = (si + seed) % len(rels)
         k = len(rels[ri][1])
         conds.append(Cond(name='c20_icard_%d' % si, imports=imp, params='a: int, b: int, a2: int, b2: int',
-                          pre=['0 <= a <= b <= %d' % k, '0 <= a2 <= b2 <= %d' % k],
+                          pre=['0 <= a <= %d' % (k + 2), 'a <= b <= %d or b == -1' % (k + 2), '0 <= a2 <= %d' % (k + 2), 'a2 <= b2 <= %d or b2 == -1' % (k + 2)],
                           body='P.inplace_card(SHAPE_%d, %d, a, b, a2, b2)' % (si, ri), timeout=T,
                           aspect='compare, change one cardinality in place, compare with rebuilt copy', sample={'shape': R.shape_str(shape), 'symbolic': 'old and new cardinality of R%d' % ri},
-                          validate=[(0, 1, 1, 1), (1, 1, 1, 1)]))
+                          validate=[(0, 1, 1, 1), (1, 1, 1, 1), (1, k, 1, -1), (1, k, 1, k + 1)]))
         conds.append(Cond(name='c20_card_%d' % si, imports=imp, params='a: int, b: int, a2: int, b2: int',
-                          pre=['0 <= a <= b <= %d' % k, '0 <= a2 <= b2 <= %d' % k],
+                          pre=['0 <= a <= %d' % (k + 2), 'a <= b <= %d or b == -1' % (k + 2), '0 <= a2 <= %d' % (k + 2), 'a2 <= b2 <= %d or b2 == -1' % (k + 2)],
                           body='P.card_differs(SHAPE_%d, %d, a, b, a2, b2)' % (si, ri), timeout=T,
-                          aspect='one cardinality changed => unequal (and equal otherwise)', sample={'shape': R.shape_str(shape), 'symbolic': 'both cardinality pairs of R%d' % ri},
-                          validate=[(0, 1, 1, 1), (1, 1, 1, 1)]))
+                          aspect='one cardinality changed => unequal (and equal otherwise); upper bound may be * (-1) or exceed the number of children', sample={'shape': R.shape_str(shape), 'symbolic': 'both cardinality pairs of R%d' % ri},
+                          validate=[(0, 1, 1, 1), (1, 1, 1, 1), (1, k, 1, -1), (1, k + 1, 1, k + 2), (1, k, 1, k + 1)]))
     return conds
 
 
